@@ -97,6 +97,7 @@ int main(int argc, char** argv)
 {
     if (argc < 6) return 2;
     vt::out().open(argv[1]);
+    vt::install_abort_handler();
     std::size_t tmax = (std::size_t) std::atol(argv[2]);
     int wmax = std::atoi(argv[3]);
     unsigned long long seed = std::strtoull(argv[4], nullptr, 10);
